@@ -748,10 +748,13 @@ Proof. intros H. split; [apply repeat_length|now apply bytes_ok_repeat]. Qed.
 Lemma instances_ok :
   oracle_ok (c_ser c_fx) (c_de c_fx) (c_wf c_fx) /\ oracle_ok (c_ser c_bv) (c_de c_bv) (c_wf c_bv) /\
   oracle_ok (c_ser c_st) (c_de c_st) (c_wf c_st) /\ oracle_ok (c_ser c_ns) (c_de c_ns) (c_wf c_ns) /\
-  prog_ok PID_A 8 DISC_FX /\ prog_ok PID_A 8 DISC_BV /\ prog_ok PID_B 1 DISC_ST /\ prog_ok PID_C 4 DISC_NS.
+  oracle_ok (c_ser c_sb) (c_de c_sb) (c_wf c_sb) /\
+  prog_ok PID_A 8 DISC_FX /\ prog_ok PID_A 8 DISC_BV /\ prog_ok PID_B 1 DISC_ST /\ prog_ok PID_C 4 DISC_NS /\
+  prog_ok PID_A 8 DISC_SB.
 Proof.
   split; [apply codec_oracle, c_fx_ok|]. split; [apply codec_oracle, c_bv_ok|].
   split; [apply codec_oracle, c_st_ok|]. split; [apply codec_oracle, c_ns_ok|].
+  split; [apply codec_oracle, c_sb_ok|].
   unfold prog_ok. repeat split; reflexivity.
 Qed.
 
@@ -784,6 +787,25 @@ Lemma nonvacuous :
   [ (Ok (Some []), IDone (Some [1; 2; 3; 4]), DISC_BV ++ [4; 0; 0; 0; 1; 2; 3; 4]);
     (Ok (Some [1; 2; 3; 4]), IDone (Some [1]), DISC_BV ++ [1; 0; 0; 0; 1]);
     (Ok (Some [1]), IDone (Some [1]), DISC_BV ++ [1; 0; 0; 0; 1]) ].
+Proof.
+  split; [split; [apply key_ok_repeat|]; reflexivity|]. vm_compute. reflexivity.
+Qed.
+
+(* a value type whose decoder accepts encodings its serializer never writes (BTreeSet<u8>: elements in any
+   order, duplicates): a read-only instruction (read, manual serialize, reload, default cleanup) leaves the
+   non-canonical image byte for byte, the next writable instruction rewrites it in canonical form (and
+   shorter), and all three decode the same value *)
+Lemma noncanonical_image :
+  let a := mkB PID_A true (DISC_SB ++ [4; 0; 0; 0; 9; 2; 9; 5]) 0 1000000 in
+  let l := [mkInstr false false [ORead; OSerialize; OReload];
+            mkInstr true false [];
+            mkInstr false false [ORead]] in
+  acct_ok a /\
+  map (fun r => (r_tfa r, r_end r, b_data (r_acct r)))
+      (exec_seq (list Z) (c_ser c_sb) (c_de c_sb) true PID_A 8 DISC_SB a l) =
+  [ (Ok (Some [2; 5; 9]), IDone (Some [2; 5; 9]), DISC_SB ++ [4; 0; 0; 0; 9; 2; 9; 5]);
+    (Ok (Some [2; 5; 9]), IDone (Some [2; 5; 9]), DISC_SB ++ [3; 0; 0; 0; 2; 5; 9]);
+    (Ok (Some [2; 5; 9]), IDone (Some [2; 5; 9]), DISC_SB ++ [3; 0; 0; 0; 2; 5; 9]) ].
 Proof.
   split; [split; [apply key_ok_repeat|]; reflexivity|]. vm_compute. reflexivity.
 Qed.
